@@ -118,7 +118,10 @@ Enabled(ph) == Hdr.enabled[ph]
 
 (* ---------------- C11 ---------------- *)
 ProtocolOK == ~Bad(mon)
-EndProtocolOK == AtEnd => EndOK(mon, NPhases, MaxFail, acc.stopped \/ acc.ctrlc)
+(* runs of the real CLI in a subprocess carry only what is visible from outside: the requests the API received and the
+   process exit code (Hdr.cli); the stream clauses do not apply to them *)
+Cli == Hdr.cli
+EndProtocolOK == (AtEnd /\ ~Cli) => EndOK(mon, NPhases, MaxFail, acc.stopped \/ acc.ctrlc)
 NoCrash == ~acc.crashed                       \* neither the stream nor the CLI context raised
 
 (* ---------------- C05 ---------------- *)
@@ -129,10 +132,15 @@ ReportedBad(ph, op) ==
     ELSE IF op = 0 THEN (\E r \in acc.rep : r[1] = ph /\ IsBad(r[3])) \/ (\E n \in acc.nfe : n[1] = ph)
     ELSE \E r \in acc.rep : r[1] = ph /\ r[2] = op /\ IsBad(r[3])
 NoProblemLost == (AtEnd /\ ~Cut) =>
-    \A p \in Problems : /\ ReportedBad(p[1], p[2])
-                        /\ PhaseBad(p[1])
+    \A p \in Problems : /\ (Cli \/ ReportedBad(p[1], p[2]))
+                        /\ (Cli \/ PhaseBad(p[1]))
                         /\ acc.exit # 0
-SchemaErrorsReported == (AtEnd /\ ~Cut) =>
+(* the process exit code of the real CLI: non-zero when the API answered badly, a selected operation could not be prepared
+   (invalid / unserialisable definition) or an event handler raised *)
+CliExitCode == (AtEnd /\ Cli) =>
+    /\ ((Len(Hdr.invalid) > 0 \/ Len(Hdr.weird) > 0) /\ Enabled(Fuzzing) => acc.exit # 0)
+    /\ (Hdr.handlerfault => acc.exit # 0)
+SchemaErrorsReported == (AtEnd /\ ~Cut /\ ~Cli) =>
     \A i \in 1..Len(Hdr.invalid) : \A ph \in {Fuzzing} :
         (Enabled(ph) /\ \E x \in acc.pf : x[1] = ph /\ x[2] # "skip") =>
             (\E r \in acc.rep : r[1] = ph /\ r[2] = Hdr.invalid[i] /\ IsBad(r[3])) /\ acc.exit # 0
@@ -141,17 +149,17 @@ SchemaErrorsReported == (AtEnd /\ ~Cut) =>
 ExternallyInterrupted == acc.stopped \/ acc.ctrlc
 DeliveredFailureCounts == (AtEnd /\ ~ExternallyInterrupted) =>
     \A r \in acc.rep : IsBad(r[3]) => PhaseBad(r[1]) /\ acc.exit # 0
-UnserializableReported == (AtEnd /\ ~Cut) =>
+UnserializableReported == (AtEnd /\ ~Cut /\ ~Cli) =>
     \A i \in 1..Len(Hdr.weird) : \A ph \in {3, 4} :
         (Enabled(ph) /\ \E x \in acc.pf : x[1] = ph /\ x[2] # "skip") =>
             (\E r \in acc.rep : r[1] = ph /\ r[2] = Hdr.weird[i] /\ IsBad(r[3])) /\ acc.exit # 0
 FailuresRecordedWithRequest == acc.badRecorded
 ZeroMeansClean == (AtEnd /\ ~Cut /\ acc.exit = 0) =>
     /\ Problems = {} /\ acc.nfe = {}
-    /\ \A r \in acc.rep : ~IsBad(r[3])
-    /\ \A ph \in {2, 3, 4} : (Enabled(ph) /\ PhaseStatus(ph) # {}) =>      \* every selected operation tested or reported skipped
-          \A op \in 1..Hdr.nops : \E r \in acc.rep : r[1] = ph /\ r[2] = op /\ r[3] \in {"success", "skip"}
-ExitCodeSet == AtEnd => acc.exit \in {0, 1}
+    /\ (Cli \/ \A r \in acc.rep : ~IsBad(r[3]))
+    /\ (Cli \/ \A ph \in {2, 3, 4} : (Enabled(ph) /\ PhaseStatus(ph) # {}) =>
+          \A op \in 1..Hdr.nops : \E r \in acc.rep : r[1] = ph /\ r[2] = op /\ r[3] \in {"success", "skip"})
+ExitCodeSet == (AtEnd /\ ~Cli) => acc.exit \in {0, 1}
 
 (* ---------------- C12 ---------------- *)
 SentCount(ph, op) == Cardinality({x \in acc.sent : x[1] = ph /\ x[2] = op})
@@ -178,7 +186,7 @@ UniqueInputs == Hdr.unique => ~acc.dup
    arrival times are taken by the API, the limiter works on send times) *)
 RateRespected == ~acc.rateBad
 
-AllOK == /\ ProtocolOK /\ EndProtocolOK /\ NoCrash /\ NoProblemLost /\ DeliveredFailureCounts /\ SchemaErrorsReported /\ UnserializableReported /\ FailuresRecordedWithRequest
+AllOK == /\ ProtocolOK /\ EndProtocolOK /\ NoCrash /\ NoProblemLost /\ CliExitCode /\ DeliveredFailureCounts /\ SchemaErrorsReported /\ UnserializableReported /\ FailuresRecordedWithRequest
          /\ ZeroMeansClean /\ ExitCodeSet /\ MaxExamplesRespected /\ MaxFailuresRespected /\ LaterPhasesSkipped
          /\ NoScenarioAfterStop /\ AtMostOneSendAfterStop /\ UniqueInputs /\ RateRespected
 
@@ -187,6 +195,7 @@ ViolatedClauses ==
     (IF ~EndProtocolOK THEN {"C11 EndProtocolOK"} ELSE {}) \cup
     (IF ~NoCrash THEN {"C11 NoCrash"} ELSE {}) \cup
     (IF ~NoProblemLost THEN {"C05 NoProblemLost"} ELSE {}) \cup
+    (IF ~CliExitCode THEN {"C05 CliExitCode"} ELSE {}) \cup
     (IF ~DeliveredFailureCounts THEN {"C05 DeliveredFailureCounts"} ELSE {}) \cup
     (IF ~SchemaErrorsReported THEN {"C05 SchemaErrorsReported"} ELSE {}) \cup
     (IF ~UnserializableReported THEN {"C05 UnserializableReported"} ELSE {}) \cup
